@@ -34,7 +34,8 @@ impl Violation {
 pub struct Ctx {
     pub violations: Vec<Violation>,
     pub counters: BTreeMap<&'static str, u64>,
-    pub cells: BTreeSet<u64>,
+    pub cells: BTreeSet<(u64, u64)>,
+    pub cell_names: BTreeMap<u64, String>,
     pub trace_hash: u64,
     pub hist_sig: u64,
     pub nontrivial: bool,
@@ -50,6 +51,7 @@ impl Ctx {
             violations: Vec::new(),
             counters: BTreeMap::new(),
             cells: BTreeSet::new(),
+            cell_names: BTreeMap::new(),
             trace_hash: 0xcbf2_9ce4_8422_2325,
             hist_sig: 0xcbf2_9ce4_8422_2325,
             nontrivial: false,
@@ -66,13 +68,17 @@ impl Ctx {
         *self.counters.entry(key).or_insert(0) += n;
     }
     pub fn cell(&mut self, space: &str, parts: &[i64]) {
-        let mut h = fnv1a(space.as_bytes());
+        let sp = fnv1a(space.as_bytes());
+        if !self.cell_names.contains_key(&sp) {
+            self.cell_names.insert(sp, space.to_string());
+        }
+        let mut h = sp;
         for p in parts {
             h ^= *p as u64;
             h = h.wrapping_mul(0x0000_0100_0000_01B3);
             h = h.rotate_left(13);
         }
-        self.cells.insert(h);
+        self.cells.insert((sp, h));
     }
     /// Canonical trace line: hashed always, stored only when recording.
     pub fn trace(&mut self, line: &str) {
@@ -169,7 +175,8 @@ pub type SimplifyFn = fn(plan: &Plan) -> Vec<Plan>;
 pub struct BatchResult {
     pub runs: u64,
     pub counters: BTreeMap<&'static str, u64>,
-    pub cells: BTreeSet<u64>,
+    pub cells: BTreeSet<(u64, u64)>,
+    pub cell_names: BTreeMap<u64, String>,
     pub distinct_sigs: BTreeSet<u64>,
     pub nontrivial_runs: u64,
     pub sim_ns: i128,
@@ -183,7 +190,8 @@ pub struct BatchResult {
 
 struct WorkerAgg {
     counters: BTreeMap<&'static str, u64>,
-    cells: BTreeSet<u64>,
+    cells: BTreeSet<(u64, u64)>,
+    cell_names: BTreeMap<u64, String>,
     sigs: BTreeSet<u64>,
     nontrivial: u64,
     sim_ns: i128,
@@ -214,6 +222,7 @@ pub fn run_batch(
                 let mut agg = WorkerAgg {
                     counters: BTreeMap::new(),
                     cells: BTreeSet::new(),
+                    cell_names: BTreeMap::new(),
                     sigs: BTreeSet::new(),
                     nontrivial: 0,
                     sim_ns: 0,
@@ -241,6 +250,11 @@ pub fn run_batch(
                             *agg.counters.entry(k).or_insert(0) += v;
                         }
                         agg.cells.extend(ctx.cells.iter().copied());
+                        for (k, v) in &ctx.cell_names {
+                            if !agg.cell_names.contains_key(k) {
+                                agg.cell_names.insert(*k, v.clone());
+                            }
+                        }
                         if ctx.nontrivial {
                             agg.nontrivial += 1;
                             agg.sigs.insert(ctx.hist_sig);
@@ -280,6 +294,7 @@ pub fn run_batch(
         runs: 0,
         counters: BTreeMap::new(),
         cells: BTreeSet::new(),
+        cell_names: BTreeMap::new(),
         distinct_sigs: BTreeSet::new(),
         nontrivial_runs: 0,
         sim_ns: 0,
@@ -296,6 +311,7 @@ pub fn run_batch(
             *out.counters.entry(k).or_insert(0) += v;
         }
         out.cells.extend(agg.cells);
+        out.cell_names.extend(agg.cell_names);
         out.distinct_sigs.extend(agg.sigs);
         out.nontrivial_runs += agg.nontrivial;
         out.sim_ns += agg.sim_ns;
@@ -427,4 +443,16 @@ pub fn jmap_u64(m: &BTreeMap<&'static str, u64>, prefix: &str) -> String {
         }
     }
     format!("{{{}}}", parts.join(","))
+}
+
+impl BatchResult {
+    /// distinct cells per named coverage space
+    pub fn cells_by_space(&self) -> BTreeMap<String, u64> {
+        let mut m = BTreeMap::new();
+        for (sp, _) in &self.cells {
+            let name = self.cell_names.get(sp).cloned().unwrap_or_else(|| format!("{:x}", sp));
+            *m.entry(name).or_insert(0) += 1;
+        }
+        m
+    }
 }
